@@ -206,7 +206,12 @@ def run_fault(r, fault, nl, res):
         "file": (lambda: T(filename=fn), fn),
         "lookup": (lambda: L(directories=[d]).get_template("t.html"), fn),
         "module-directory": (lambda: T(filename=fn, module_directory=os.path.join(d, "mods")), fn),
+        # compiled while ANOTHER template is rendering (an include): what is reported and displayed is still the
+        # faulty template, not the one that was executing
+        "included": (lambda: L(directories=[d]).get_template("main_.html").render_unicode(), fn),
     }
+    with open(os.path.join(d, "main_.html"), "w") as f:
+        f.write("first line\nsecond line ${1 + 1}\n<%include file=\"t.html\"/>\nlast line\n")
     what0 = "fault %s planted at line %d of %r" % (fault["name"], line, text)
     seen = {}
     res.count("faults_planted")
@@ -268,7 +273,7 @@ def run_fault(r, fault, nl, res):
                 res.violate("fault-accepted-" + fault["name"], "%s compiled without error" % what, witness=fault["name"], replay_case=rc)
         if len(set(seen.values())) > 1:
             res.violate("paths-disagree", "%s: %r" % (what0, seen), replay_case=rc)
-        elif len(seen) == 4:
+        elif len(seen) == 5:
             res.count("paths_agree")
         if line > 1:
             res.nontrivial("c11", text, fault["name"])
@@ -279,7 +284,7 @@ def run_fault(r, fault, nl, res):
 
 
 def gen_cases(tier, seed):
-    n = 400 if tier == "quick" else 4000
+    n = 250 if tier == "quick" else 4000
     per = 5
     for i in range(n // per):
         yield {"kind": "batch", "seed": seed, "index": i, "n": per}
